@@ -352,6 +352,37 @@ Definition run (v : variant) (o : opts) (e : env) : outcome result :=
     end
   end.
 
+(* ---- round 7: CONTENT of the resume marker `last_finished_iteration` after the call ----
+   _remove_last_finished_index()  (save_strategy "latest", before the in-place overwrite) and
+   _save_last_finished_index(iglobal)  (after _minisanity: f.write(str(index)); os.replace) are the only
+   statements touching it; both sit behind `if output_directory is not None` and behind the `continue` of
+   a dry run; the `break` of the terminate callback comes after the marker has been written. *)
+Definition marker_step (o : opts) (i : nat) (m : option nat) : option nat :=
+  if dry o then m else if outdir o then Some i else m.
+Fixpoint marker_loop (v : variant) (o : opts) (e : env) (is : list nat) (s : lstate) (m : option nat)
+  : option nat :=
+  match is with
+  | [] => m
+  | i :: r =>
+    match iteration v o e i s with
+    | Err _ => m
+    | Ok (_, true) => marker_step o i m
+    | Ok (s', false) => marker_loop v o e r s' (marker_step o i m)
+    end
+  end.
+(* what a later call with resume=True reads from the file (None: no file) *)
+Definition marker_after (v : variant) (o : opts) (e : env) : option nat :=
+  match prepare v o e with
+  | Err _ => last0 e
+  | Ok (s, first, _, early) =>
+    if early then last0 e else marker_loop v o e (seq first (total o - first)) s (last0 e)
+  end.
+Definition optnat_eqb (a b : option nat) : bool :=
+  match a, b with Some x, Some y => Nat.eqb x y | None, None => true | _, _ => false end.
+(* compared only for calls that returned normally *)
+Definition marker_ok (v : variant) (o : opts) (e : env) (code : nat) (m : option nat) : bool :=
+  if Nat.eqb code 0 then optnat_eqb (marker_after v o e) m else true.
+
 (* ---- documented preconditions on a configuration and on what is found on disk ---- *)
 Definition valid (o : opts) (e : env) : Prop :=
   init_index o < total o /\
